@@ -101,8 +101,18 @@ fn hook_events_json(evs: Vec<hooks::HookEvent>, queries: &[Vec<Q>]) -> Vec<J> {
 /// one round: `threads` threads, each with its own query list, released together on a cold namespace.
 /// Every answer is also computed alone on a second cold namespace (`solo`).
 pub fn round(out: &mut Out, grid: &Grid, queries: Vec<Vec<Q>>, label: &str) {
+    round_warm(out, grid, queries, label, &[])
+}
+
+/// like `round`, but the namespace has already answered the queries `warm` (unobserved, on one thread) when the threads start:
+/// the capacity family - a history of thousands of distinct symbols in front of the observed queries
+pub fn round_warm(out: &mut Out, grid: &Grid, queries: Vec<Vec<Q>>, label: &str, warm: &[Q]) {
     out.emit(load_event(grid));
     let ns = leak(grid.clone());
+    hooks::set_enabled(false);
+    for q in warm {
+        let _ = guarded(|| answer(ns, q));
+    }
     // answers alone, each on its own cold namespace
     hooks::set_enabled(false);
     let solo: Vec<Vec<Vec<String>>> = queries.iter().map(|qs| qs.iter().map(|q| cold(grid, |n| answer(n, q))).collect()).collect();
@@ -447,6 +457,29 @@ pub fn rec(out: &mut Out, seed: u64, rounds: usize) -> Result<(), String> {
             queries[0].extend(pair);
         }
         round(out, grid, queries, if use_real { "real" } else if use_deep { "deep" } else { "small" });
+    }
+    // the capacity family: the same kind of round after a long history of distinct symbols (defined and undefined), sizes
+    // around the usual cache bounds (2^8 .. 2^16); every answer must still be the cold namespace's
+    let sizes: &[usize] = if rounds <= 100 { &[300, 1100, 4200, 9000] } else { &[300, 1100, 4200, 9000, 17000, 33000, 66000, 140000] };
+    for (i, n) in sizes.iter().enumerate() {
+        let (grid, syms) = if i % 2 == 0 { (&small, &small_syms) } else { (&real, &real_syms) };
+        let mut warm: Vec<Q> = Vec::new();
+        for k in 0..*n {
+            let name = format!("customTag{k}");
+            warm.push(match k % 3 { 0 => Q::Fits(name, syms[k % syms.len()].clone()), 1 => Q::Inh(name), _ => Q::Sup(name) });
+        }
+        for s_ in syms.iter() {
+            warm.push(Q::Inh(s_.clone()));
+        }
+        let mut queries: Vec<Vec<Q>> = (0..4).map(|_| (0..3).map(|_| random_query(&mut rng, syms)).collect()).collect();
+        // the symbols a bounded cache is tempted to share a slot for: the empty name and names never asked before
+        queries[0].push(Q::Inh(String::new()));
+        queries[0].push(Q::Fits(String::new(), syms[0].clone()));
+        queries[1].push(Q::Inh(format!("neverAsked{n}")));
+        queries[1].push(Q::Inh(syms[0].clone()));
+        queries[2].push(Q::Fits(syms[0].clone(), syms[syms.len() - 1].clone()));
+        queries[3].push(Q::Sup(format!("customTag{}", n / 2)));
+        round_warm(out, grid, queries, "capacity", &warm);
     }
     Ok(())
 }
